@@ -7,7 +7,7 @@ Import ListNotations.
 Local Open Scope N_scope.
 
 Definition names_root (roots : list root) (f : N) (h : N) : Prop :=
-  h <> 0 -> exists r, In r roots /\ r_frame r = f /\ r_id r = h.
+  exists r, In r roots /\ r_frame r = f /\ r_id r = h.
 Definition goodv (roots : list root) (f : N) (vt : vote) : Prop := vt_yes vt = true -> names_root roots f (vt_obs vt).
 Definition V (st : lstate) : Prop :=
   (forall k vt, In (k, vt) (el_votes (l_el st)) -> goodv (l_roots st) (el_frame (l_el st)) vt) /\
@@ -47,6 +47,63 @@ Proof.
     + apply Hsh. exact Hh.
 Qed.
 
+(* the three counters of the tally: a validator is counted in "all" whenever it is counted in yes or no,
+   the sums add up, and the yes counter stays at zero until some yes-vote set the subject hash *)
+Lemma count_idx_sum ev c i : c_sum (snd (count_idx ev c i)) =
+  c_sum c + (if nth i (c_already c) false then 0 else nth i (v_weights ev) 0).
+Proof. unfold count_idx. destruct (nth i (c_already c) false); cbn; lia. Qed.
+Lemma nth_set_true : forall i l, nth i (set_nth false l i true) false = true.
+Proof. induction i as [|i IH]; intros [|y t]; cbn [set_nth nth]; auto. Qed.
+Lemma nth_set_other : forall i l j, i <> j -> nth j (set_nth false l i true) false = nth j l false.
+Proof.
+  induction i as [|i IH]; intros l j H; destruct l as [|y t]; destruct j as [|j]; cbn [set_nth nth]; try congruence; auto;
+    try (destruct j; reflexivity); try (rewrite IH by congruence; destruct j; reflexivity); try (apply IH; congruence).
+Qed.
+Lemma count_idx_al ev c i j : nth j (c_already (snd (count_idx ev c i))) false =
+  (Nat.eqb i j || nth j (c_already c) false).
+Proof.
+  unfold count_idx. destruct (nth i (c_already c) false) eqn:A; cbn [snd c_already].
+  - destruct (Nat.eqb_spec i j); subst; cbn; auto.
+  - destruct (Nat.eqb_spec i j); subst; cbn; [apply nth_set_true | apply nth_set_other; auto].
+Qed.
+Lemma count_idx_fresh ev c i : fst (count_idx ev c i) = negb (nth i (c_already c) false).
+Proof. unfold count_idx. destruct (nth i (c_already c) false); reflexivity. Qed.
+
+Definition tally_inv (sh : option N) (yes no all : counter) : Prop :=
+  (sh = None -> c_sum yes = 0) /\ c_sum all = c_sum yes + c_sum no /\
+  (forall j, nth j (c_already yes) false = true \/ nth j (c_already no) false = true -> nth j (c_already all) false = true).
+Lemma tally_sums ev votes subj : forall obs sh yes no all sh' yes' no' all',
+  tally_inv sh yes no all ->
+  tally ev votes subj obs sh yes no all = Ok (sh', yes', no', all') -> tally_inv sh' yes' no' all'.
+Proof.
+  induction obs as [|r t IH]; intros sh yes no all sh' yes' no' all' Hi E; cbn [tally] in E.
+  - inversion E; subst. exact Hi.
+  - destruct (votes_get (r, subj) votes) as [vt|]; [|discriminate].
+    destruct (vt_yes vt && _); [discriminate|].
+    pose proof (count_idx_fresh ev all (v_idx ev (r_val r))) as Fr.
+    pose proof (count_idx_sum ev all (v_idx ev (r_val r))) as Sa.
+    pose proof (count_idx_al ev all (v_idx ev (r_val r))) as Aa.
+    unfold count_id in E. destruct (count_idx ev all (v_idx ev (r_val r))) as [fresh allx]. cbn [fst snd] in *.
+    destruct fresh; cbn [negb] in E; [|discriminate].
+    symmetry in Fr. apply negb_true_iff in Fr. rewrite Fr in Sa.
+    destruct Hi as (H1 & H2 & H3).
+    assert (Hy : nth (v_idx ev (r_val r)) (c_already yes) false = false).
+    { destruct (nth (v_idx ev (r_val r)) (c_already yes) false) eqn:X; auto. rewrite (H3 _ (or_introl X)) in Fr. discriminate. }
+    assert (Hn : nth (v_idx ev (r_val r)) (c_already no) false = false).
+    { destruct (nth (v_idx ev (r_val r)) (c_already no) false) eqn:X; auto. rewrite (H3 _ (or_intror X)) in Fr. discriminate. }
+    eapply IH; [|exact E]. unfold tally_inv. destruct (vt_yes vt).
+    + split; [discriminate|]. rewrite count_idx_sum, Hy, Sa. split; [lia|].
+      intros j. rewrite count_idx_al, Aa. intros [H|H]; [apply orb_true_iff in H as [H|H]; [rewrite H; reflexivity|] |];
+        (rewrite (H3 j) by auto; apply orb_true_r).
+    + split; [exact H1|]. rewrite count_idx_sum, Hn, Sa. split; [lia|].
+      intros j. rewrite count_idx_al, Aa. intros [H|H]; [|apply orb_true_iff in H as [H|H]; [rewrite H; reflexivity|]];
+        (rewrite (H3 j) by auto; apply orb_true_r).
+Qed.
+Lemma new_counter_al ev j : nth j (c_already (new_counter ev)) false = false.
+Proof. unfold new_counter. cbn. destruct (Nat.lt_ge_cases j (length ev)); [apply nth_repeat | apply nth_overflow; rewrite repeat_length; lia]. Qed.
+Lemma tally_inv_init ev : tally_inv None (new_counter ev) (new_counter ev) (new_counter ev).
+Proof. unfold tally_inv. cbn [c_sum new_counter]. repeat split; auto. intros j [H|H]; rewrite new_counter_al in H; discriminate. Qed.
+
 Lemma observed_map_get_in obs s r : observed_map_get obs s = Some r -> In r obs.
 Proof. unfold observed_map_get. intros H. apply find_some in H as [H _]. apply in_rev. exact H. Qed.
 
@@ -60,13 +117,15 @@ Proof.
     cbn [snd]; [|exact HV].
   assert (Gv : goodv roots (el_frame el) vt).
   { destruct r1.
-    - destruct (observed_map_get obs s) as [r|] eqn:O; inversion RV; subst; intros Y Z; cbn in *; [|discriminate].
+    - destruct (observed_map_get obs s) as [r|] eqn:O; inversion RV; subst; intros Y; cbn in *; [|discriminate].
       destruct (Hobs eq_refl r (observed_map_get_in _ _ _ O)) as [Hin Hf]. exists r. auto.
     - destruct (tally _ _ _ _ _ _ _ _) as [[[[sh yes] no] all]|x] eqn:T; [|discriminate].
-      destruct (negb (has_quorum (el_vals el) all)); [discriminate|]. inversion RV; subst. clear RV.
+      destruct (has_quorum (el_vals el) all) eqn:QA; cbn [negb] in RV; [|discriminate]. inversion RV; subst. clear RV.
       intros Y. cbn [vt_yes vt_obs] in *. rewrite Y.
-      destruct sh as [h|]; [|intros Z; elim Z; reflexivity].
-      eapply (tally_names _ _ _ roots (el_frame el) (proj1 HV)); [|exact T|reflexivity]. intros h0 H0. discriminate. }
+      destruct (tally_sums _ _ _ _ _ _ _ _ _ _ _ _ (tally_inv_init (el_vals el)) T) as (S1 & S2 & _).
+      destruct sh as [h|].
+      + eapply (tally_names _ _ _ roots (el_frame el) (proj1 HV)); [|exact T|reflexivity]. intros h0 H0. discriminate.
+      + exfalso. specialize (S1 eq_refl). unfold has_quorum, v_quorum in QA. lia. }
   apply IH.
   - destruct HV as [HV1 HV2]. split; cbn [el_votes el_decided el_frame].
     + intros k v [H|H]; [inversion H; subst; exact Gv | eapply HV1; eauto].
@@ -152,6 +211,6 @@ Qed.
 Lemma V_more_roots st roots' : (forall r, In r (l_roots st) -> In r roots') -> V st -> V (set_roots st roots').
 Proof.
   intros Hsub [H1 H2]. unfold V, goodv, names_root in *. cbn [l_el l_roots set_roots].
-  split; intros k vt Hin Y Z; [destruct (H1 _ _ Hin Y Z) as [r [A B]] | destruct (H2 _ _ Hin Y Z) as [r [A B]]];
+  split; intros k vt Hin Y; [destruct (H1 _ _ Hin Y) as [r [A B]] | destruct (H2 _ _ Hin Y) as [r [A B]]];
     exists r; split; auto.
 Qed.
